@@ -143,6 +143,7 @@ func runC02(t *testing.T, c *choice.Stream, r *Result, opt RunOpt) {
 		e.W.DeliverMode = c.Weighted("deliver", 3, 1, 3)
 		srv := simnet.NewServer(cf.ServerRev, script)
 		conn := e.W.NewConn(srv)
+		HangJudge(e, r, conn, srv, cf.ServerRev)
 		conn.Window = c.Pick("window", 0, 0, 64, 4096)
 		r.Cell = fmt.Sprintf("rev%d/comp%d/%s", cf.Negotiated(), cf.Comp, qs[0].sc.kind)
 		var shapes []map[string]any
